@@ -1,0 +1,22 @@
+//go:build verif
+
+package testutil
+
+import (
+	proto4 "go.sia.tech/core/rhp/v4"
+)
+
+// VerifAttachedPools returns a copy of the account -> attached pools links of
+// the contractor, in attachment order. It exists only under the `verif` build
+// tag: the rhp4.Contractor interface has no accessor for attachments, and the
+// /verif harness (properties C15, C08) compares them with its specification
+// after every pool attach / detach RPC.
+func (ec *EphemeralContractor) VerifAttachedPools() map[proto4.Account][]proto4.Account {
+	ec.mu.Lock()
+	defer ec.mu.Unlock()
+	out := make(map[proto4.Account][]proto4.Account, len(ec.attached))
+	for a, pools := range ec.attached {
+		out[a] = append([]proto4.Account(nil), pools...)
+	}
+	return out
+}
